@@ -27,6 +27,7 @@ type HarnessCfg struct {
 	MaxIteIndex     int
 	AppendSlack     int
 	GoPolicy        string // skip | run | queue
+	GoRunMatch      string // goroutines whose function name contains this run immediately
 	SortMapStrings  bool
 	MapOrderFork    bool
 	UnbufferedAsOne bool
